@@ -222,12 +222,12 @@ def gen_str(e, d):
     if c == 10:
         what = r.choice(['int', 'str', 'list', 'dict'])
         if what == 'int':
-            return 'pretty(%s)' % r.choice(['1234567', '12', '100000', '(-1234567)', '12345'])
+            return 'pretty(%s%s)' % (r.choice(['1234567', '12', '100000', '(-1234567)', '12345', '1000', '9999', '10000', '(-10000)', '123456789012']), r.choice(['', '', ', ","', ', "_"', ', ""']))
         if what == 'str':
             return 'pretty(%s)' % gen_str(e, d - 1)
         if what == 'list':
             return 'pretty(%s%s)' % (gen_list(e, r.choice(['num', 'str']), d - 1), r.choice(['', ', "; "']))
-        return 'pretty(%s)' % gen_dict(e, r.choice(['num', 'str']), d - 1)
+        return 'pretty(%s%s)' % (gen_dict(e, r.choice(['num', 'str']), d - 1), r.choice(['', '', ', "; "', ', " | "']))
     if c == 11:
         return '(%s if %s else %s)' % (gen_str(e, d - 1), gen_bool(e, d - 1), gen_str(e, d - 1))
     if c == 12:
